@@ -476,7 +476,10 @@ void ConstrainedFDLayout::recGenerateClusterVariablesAndConstraints(
         // The set of clusters to put non-overlap constraints between is the
         // child clusters of this cluster.  We will also add any overlapping
         // clusters (due to multiple inheritence) to this set.
-        std::set<Cluster *> expandedClusterSet(cluster->clusters.begin(),
+        // Keep these in insertion order (rather than ordered by address)
+        // so that the layout does not depend on where clusters happen to
+        // be allocated.
+        std::vector<Cluster *> expandedClusterSet(cluster->clusters.begin(),
                 cluster->clusters.end());
         for (std::set<unsigned>::iterator curr = cluster->nodes.begin();
                 curr != cluster->nodes.end(); ++curr)
@@ -488,15 +491,20 @@ void ConstrainedFDLayout::recGenerateClusterVariablesAndConstraints(
                 // This shape is child of another cluster also, so replace
                 // this node with the other cluster for the purpose of
                 // non-overlap with other children of the current cluster.
-                expandedClusterSet.insert(
-                        cluster->m_overlap_replacement_map[id]);
+                Cluster *replacement = cluster->m_overlap_replacement_map[id];
+                if (std::find(expandedClusterSet.begin(),
+                        expandedClusterSet.end(), replacement) ==
+                        expandedClusterSet.end())
+                {
+                    expandedClusterSet.push_back(replacement);
+                }
             }
             // Normal case: Add shape for generation of non-overlap
             // constraints.
             noc->addShape(id, boundingBoxes[id]->width() / 2,
                     boundingBoxes[id]->height() / 2, group);
         }
-        for (std::set<Cluster*>::iterator curr = expandedClusterSet.begin();
+        for (std::vector<Cluster*>::iterator curr = expandedClusterSet.begin();
                 curr != expandedClusterSet.end(); ++curr)
         {
             Cluster *cluster = *curr;
